@@ -27,7 +27,12 @@ def run(tier):
     r = vlib.tlc("Rename", "Rename.cfg", constants=None)
     chk.add_tlc(r)
     renamings = sorted(r.records[0]["renamings"], key=lambda x: (x["kind"], x["index"], x["to"]))
+    renamings += sorted(r.records[0]["prefix_pairs"], key=lambda x: (x["kind"], x["index"], x["other"]))
     progs = families.all_programs(chk, depth_values=0 if tier == "quick" else 1, depth_verdict=0, only=("MC_C01", "MC_C05", "MC_C07", "MC_C08"))
+    import probes
+    scoped = probes.generate(chk, "MC_C15", ["all"], 0)
+    for p in scoped:
+        p["family"] = "MC_C15"
     base = [p for p in progs if p["family"] == "MC_C01"]
     others = [p for p in progs if p["family"] != "MC_C01"]
     if tier == "quick":
@@ -36,12 +41,21 @@ def run(tier):
     else:
         others = others[::4]
     variants = []
-    for p in base + others:
+    for p in scoped + base + others:
         names = rename.collect(p["prog"])
         allnames = [n for k in names for n in names[k]]
         for rn in renamings:
             if rn["kind"] == "all":
                 m = {n: (n + "_rn" if n[0].islower() or n[0] == "_" else n + "Rn") for n in allnames}
+            elif rn["to"] == "<prefix-pair>":
+                pool = names[rn["kind"]]
+                if max(rn["index"], rn["other"]) > len(pool) or "pfx" in allnames or "pfx_count" in allnames:
+                    continue
+                m = {pool[rn["index"] - 1]: "pfx", pool[rn["other"] - 1]: "pfx_count"}
+                q = rename.apply(p["prog"], m)
+                src, _ = render.program(q)
+                variants.append({"orig": p["src"], "variant": src, "map": m, "origin": "%s/%s" % (p["family"], p["kind"]), "renaming": rn})
+                continue
             else:
                 pool = names[rn["kind"]]
                 if rn["index"] > len(pool):
@@ -54,7 +68,7 @@ def run(tier):
             src, _ = render.program(q)
             variants.append({"orig": p["src"], "variant": src, "map": m, "origin": "%s/%s" % (p["family"], p["kind"]), "renaming": rn})
     if tier == "quick":
-        variants = variants[::3]
+        variants = [v for v in variants if v["origin"].startswith("MC_C15")] + [v for v in variants if not v["origin"].startswith("MC_C15")][::3]
     texts = list(dict.fromkeys([v["orig"] for v in variants] + [v["variant"] for v in variants]))
     idx = {t: i for i, t in enumerate(texts)}
     results, dead = vlib.run_vh_isolated(vh, ["transpile"], [{"id": i, "src": t, "annotate": [False, True]} for i, t in enumerate(texts)], chunk=800, timeout=300)
@@ -113,9 +127,9 @@ def run(tier):
     chk.extra["verdict_counts"] = {k: n for k, n in counts.items() if not k.endswith("/ok")}
     chk.extra["ok"] = sum(n for k, n in counts.items() if k.endswith("/ok"))
     chk.exhaustive = False
-    chk.rule = ("renamings of spec/Rename.tla (kind in {var, fun, class, field, method} x the first 3 names of that kind x a pool of 18 lower-case and "
+    chk.rule = ("renamings of spec/Rename.tla (kind in {var, fun, class, field, method} x the first 3 names of that kind x a pool of 21 lower-case (incl. s, se, sel: prefixes of self) and "
                 "14 class-like targets incl. size, init, super, math, typing, abc, str, int, range, slice, Optional, Union, ABC, Tuple, Any, Callable ..., "
-                "and the total fresh renaming) applied to the programs of the C01 family and a slice of the C05/C07/C08 probes; annotate off and on; "
+                "the total fresh renaming, and prefix pairs: two names of a kind become pfx and pfx_count) applied to the scoped programs of MC_C15 (with statements with and without alias, nested, in functions and methods, shadowing and binders), the programs of the C01 family and a slice of the C05/C07/C08 probes; annotate off and on; "
                 "non-trivial = distinct (renamed program, mode) compared")
     chk.assumptions = ["self, init/__init__ as constructor and operator names are the documented specials and are not renaming targets for those roles",
                        "py/pyapi.py applies the renaming to every identifier position of the Python AST"]
